@@ -455,6 +455,14 @@ def pred_local(ops, out):
             q = dict((x.split(":")[0], int(x.split(":")[1])) for x in m.group(2).split(",") if x)
             if q != peers:
                 return f"`{op}`: peer queue lengths {q}, expected {peers}"
+            # every peer queue numbers its own events: ids in one queue are consecutive (the receiver applies an event only
+            # when its id is the next one it expects and drops ids it has seen)
+            for x in m.group(2).split(","):
+                ps = x.split(":")
+                if len(ps) >= 3 and ps[2]:
+                    ids = [int(i) for i in ps[2].split("+")]
+                    if any(b != a + 1 for a, b in zip(ids, ids[1:])):
+                        return f"`{op}`: the events queued for peer {ps[0]} carry ids {ids}, not consecutive numbers"
     return None
 
 def nontriv_local(ops, out):
